@@ -338,6 +338,9 @@ pub(crate) fn parse_f64(v: &str) -> Option<f64> {
         ".inf" | ".Inf" | ".INF" | "+.inf" | "+.Inf" | "+.INF" => Some(f64::INFINITY),
         "-.inf" | "-.Inf" | "-.INF" => Some(f64::NEG_INFINITY),
         ".nan" | ".NaN" | ".NAN" => Some(f64::NAN),
+        // `f64::from_str` also accepts `inf`, `infinity` and `nan` (in any case, with an optional
+        // sign). These are not YAML 1.2 core schema floats, whose only letter is the exponent's.
+        _ if v.bytes().any(|b| b.is_ascii_alphabetic() && !matches!(b, b'e' | b'E')) => None,
         _ => v.parse::<f64>().ok(),
     }
 }
